@@ -113,6 +113,17 @@ class GeminiClientProtocol(asyncio.Protocol):
             # If status is not success (20-29), close immediately
             # (no body expected for non-success responses)
             if not (20 <= self.status < 30):
+                # A non-success response is complete at the CRLF: deliver it now, so
+                # that nothing the peer sends or does afterwards can change the result
+                if not self.response_future.done():
+                    self.response_future.set_result(
+                        GeminiResponse(
+                            status=self.status,
+                            meta=self.meta or "",
+                            body=None,
+                            url=self.url,
+                        )
+                    )
                 self.transport.close()  # type: ignore
 
         # Check if we've received too much data (prevent memory exhaustion)
@@ -362,6 +373,15 @@ class TitanClientProtocol(asyncio.Protocol):
 
             # If status is not success (20-29), close immediately
             if not (20 <= self.status < 30):
+                if not self.response_future.done():
+                    self.response_future.set_result(
+                        GeminiResponse(
+                            status=self.status,
+                            meta=self.meta or "",
+                            body=None,
+                            url=self.titan_url,
+                        )
+                    )
                 if self.transport:
                     self.transport.close()
 
